@@ -163,10 +163,29 @@ for s in ["x;", "x; y;", "t x", "a b", "x y z", "t", "t t"]:
         out.append([f[i].to_str() for i in range(min(n, 12))])
     except Exception as e:
         out.append(type(e).__name__)
+def forests(q):
+    res = []
+    for s in ["x;", "x; y;", "t x", "a b", "x y z", "t", "t t"]:
+        try:
+            f = q.parse(s)
+            res.append([f[i].to_str() for i in range(min(f.solutions, 12))])
+        except Exception as e:
+            res.append(type(e).__name__)
+    return res
+# the same through the table cache: the first construction calculates the
+# table and writes root.pgc, the second one loads it
+with contextlib.redirect_stdout(io.StringIO()):
+    p1 = GLRParser(Grammar.from_file(os.path.join(d, "root.pg")))
+    a = forests(p1)
+    had_cache = os.path.exists(os.path.join(d, "root.pgc"))
+    p2 = GLRParser(Grammar.from_file(os.path.join(d, "root.pg")))
+    b = forests(p2)
+out.append(a)
 for f_ in os.listdir(d):
     if f_.endswith((".pgc", ".tmp")):
         os.remove(os.path.join(d, f_))
-print(hashlib.sha256(json.dumps(out).encode()).hexdigest()[:16])
+print(hashlib.sha256(json.dumps(out).encode()).hexdigest()[:16]
+      + ("" if a == b else " CACHE-ORDER") + ("" if had_cache else " NO-CACHE"))
 '''
     runs = 0
     n = 0
@@ -191,6 +210,15 @@ print(hashlib.sha256(json.dumps(out).encode()).hexdigest()[:16])
                         "ERR:" + r.stderr.strip()[-120:]
                     digs.setdefault(key, []).append(hs)
                 n += 1
+                if any("CACHE-ORDER" in k for k in digs):
+                    judge.deviation("NONDETERMINISM", "modular/cache",
+                                    f"m{mi}/r{ri}", "",
+                                    "forest order differs between the process "
+                                    "that calculated the table and one that "
+                                    "loaded it from the cache",
+                                    {"digests": digs},
+                                    {"files": {"a.pg": mod, "b.pg": mod,
+                                               "root.pg": root}})
                 if len(digs) != 1:
                     judge.deviation("NONDETERMINISM", "modular", f"m{mi}/r{ri}",
                                     "", "table / conflicts / forest order of a "
